@@ -72,6 +72,11 @@ def frag_reads(header, contigs, method, idx, fr):
         seq1 = body
         qc1 = not fr['valid']
     cig1 = None if not clip else (('%dM%dS' % (l1, clip)) if rev else ('%dS%dM' % (clip, l1)))
+    if paired and fr.get('r1_unmapped', False):          # mate 1 unmapped, stored at mate 2's position
+        return [bamgen.make_read(header, name, cname, r2s, seq1, paired=True, read1=True, unmapped=True, mate_contig=cname, mate_pos=r2s,
+                                 mate_reverse=not rev, qcfail=qc1, tags=tags),
+                bamgen.make_read(header, name, cname, r2s, fill(l2, idx * 11 + 3), reverse=not rev, paired=True, read2=True,
+                                 mate_contig=cname, mate_pos=r2s, mate_unmapped=True, tags=tags)]
     r2un = paired and fr.get('r2_unmapped', False)     # mate 2 unmapped, placed at mate 1's position
     c2name = cname
     if paired and not r2un and fr.get('r2_c', -1) >= 0:       # -1: same contig (no JSON null in recorded cases)
@@ -428,6 +433,7 @@ def random_library(rng, method, big=False, n_small=0):
                 frags.append({'c': c, 'lo': flo, 'hi': fhi, 'rev': rev, 'l1': max(l1, 10), 'l2': l2, 'valid': valid, 'umi': umi if d == 0 or rng.random() < 0.7 else 'AAC',
                               'cell': cell, 'dup_in': rng.random() < 0.1,
                               'r2_unmapped': (not single) and rng.random() < 0.08,
+                              'r1_unmapped': (not single) and rng.random() < 0.06,
                               'r2_del': (not single) and l2 >= 12 and rng.random() < 0.15,
                               'r2_c': rng.choice([x for x in range(len(contigs)) if x != c])
                               if (not single) and len(contigs) > 1 and rng.random() < 0.06 else -1})
@@ -446,8 +452,18 @@ def random_library(rng, method, big=False, n_small=0):
                               'l2': 0 if single else rng.randint(12, ext), 'valid': rng.random() < 0.85, 'umi': 'GGT', 'cell': 'cellA',
                               'dup_in': False, 'r2_unmapped': False, 'clip': 4 if (rev and method == 'nla') else 0})
     for f in frags:
-        if f.get('r2_unmapped') or f['l2'] == 0:
+        if f.get('r1_unmapped'):
+            f['r2_unmapped'] = False
+        if f.get('r2_unmapped') or f.get('r1_unmapped') or f['l2'] == 0:
             f['r2_c'] = -1
+    # half-mapped pairs of both kinds in every library, next to a bin start (the region jobs see them as two fragments: the
+    # mapped mate alone, and the unmapped mate as an orphan whose only location is the position it is stored at)
+    for which in ('r2_unmapped', 'r1_unmapped'):
+        c = rng.randrange(len(contigs))
+        lo = B + rng.choice([-30, -1, 0, 1, 17])
+        frags.append({'c': c, 'lo': lo, 'hi': lo + 50, 'rev': rng.random() < 0.5, 'l1': 30, 'l2': 24, 'valid': True, 'umi': 'CCC',
+                      'cell': 'cellB', 'dup_in': False, 'r2_unmapped': which == 'r2_unmapped', 'r1_unmapped': which == 'r1_unmapped',
+                      'r2_c': -1})
     for c in range(len(contigs)):       # every contig carries reads
         if not any(f['c'] == c for f in frags):
             frags.append({'c': c, 'lo': B + 3, 'hi': B + 43, 'rev': False, 'l1': 30, 'l2': 20, 'valid': True, 'umi': 'AAA',
@@ -534,6 +550,10 @@ def main():
                 exact = max(f['hi'] - f['lo'] + (1 if (method == 'chic' or f.get('clip')) else 0) for f in lib['frags'])
                 fsize = rng.choice([lib['maxext'] + 1, exact, lib['F'], 2 * lib['F']])      # exact: request == longest fragment
                 jobbp = rng.choice([seg, 2 * seg, 10 * seg, seg // 2, 0, 1])
+                if k % 4 == 2:      # bins smaller than the fragments (and than the reads) while the requested margin covers a fragment
+                    seg = rng.choice([13, 30, 47])
+                    fsize = rng.choice([exact, exact + 1, 2 * lib['F'] + 60])
+                    jobbp = rng.choice([20 * seg, 60 * seg])
                 use_pool = k < npool
                 threads = rng.randint(1, 8)
                 par = os.path.join(tmp, 'par%d.bam' % k)
